@@ -35,6 +35,7 @@ type fnSpec struct {
 	Model      []string `json:"model"`      // hand-written model function(s) the theorem relates it to
 	Theorems   []string `json:"theorems"`   // equivalence theorem(s)
 	PropsFile  string   `json:"props_file"` // Lean module holding the theorems
+	Opaque     []string `json:"opaque"`     // callees that become function parameters of the translated definition
 }
 
 type whitelist struct {
@@ -133,6 +134,30 @@ type varInfo struct {
 	name  string // Lean name
 	ty    string // Lean type
 	strct *structProj
+	full  bool // a struct value whose type is translated completely (every field has a supported type)
+	ptr   bool // parameter of pointer type
+}
+
+// fileCtx: what one output file accumulates (struct declarations and function texts, each once, in dependency order)
+type fileCtx struct {
+	structs    []string
+	structSeen map[string]bool
+	funcs      []string
+	funcSeen   map[string]bool
+	sigs       map[string]*sig
+	inProgress map[string]bool
+}
+
+func newFileCtx() *fileCtx {
+	return &fileCtx{structSeen: map[string]bool{}, funcSeen: map[string]bool{}, sigs: map[string]*sig{}, inProgress: map[string]bool{}}
+}
+
+// sig: how a translated function is called from another translated function
+type sig struct {
+	params  scope
+	resTy   string
+	mutRecv bool
+	opaque  bool
 }
 
 type structProj struct {
@@ -180,6 +205,10 @@ type tr struct {
 	monadic  int
 	notes    []string
 	intArith bool
+	subst    *idxSubst
+	fc       *fileCtx
+	opaque   map[string]bool     // names of callees that are parameters of the translated definition
+	opaqueV  map[string]*varInfo // callee name -> the function parameter
 }
 
 func (t *tr) fail(n ast.Node, format string, a ...interface{}) {
@@ -263,6 +292,11 @@ func (t *tr) leanType(n ast.Node, ty types.Type) string {
 			t.fail(n, "the type of this expression is declared outside the module (or does not type-check): not translated")
 		}
 		t.fail(n, "unsupported basic type %s", ty)
+	case *types.Struct:
+		if name := t.fullStruct(ty); name != "" {
+			return name
+		}
+		t.fail(n, "struct type %s has fields outside the supported types (only its fields can be used, through a parameter)", ty)
 	case *types.Slice:
 		e := t.leanType(n, u.Elem())
 		if e == "UInt8" {
@@ -275,6 +309,73 @@ func (t *tr) leanType(n ast.Node, ty types.Type) string {
 	}
 	t.fail(n, "unsupported type %s", ty)
 	return ""
+}
+
+func fieldName(n string) string {
+	if leanReserved[n] {
+		return n + "_f"
+	}
+	return n
+}
+
+// fullStruct: the Lean structure for a named struct type of the module all of whose fields have supported types ("" if not)
+func (t *tr) fullStruct(ty types.Type) string {
+	named, ok := ty.(*types.Named)
+	if !ok {
+		return ""
+	}
+	st, ok := named.Underlying().(*types.Struct)
+	if !ok || st.NumFields() == 0 {
+		return ""
+	}
+	name := named.Obj().Name()
+	if t.fc.structSeen[name] {
+		return name
+	}
+	var b strings.Builder
+	fmt.Fprintf(&b, "/-- `%s` (all fields) -/\nstructure %s where\n", named.String(), name)
+	for i := 0; i < st.NumFields(); i++ {
+		f := st.Field(i)
+		if f.Embedded() {
+			return ""
+		}
+		lt := t.leanTypeOK(f.Type())
+		if lt == "" {
+			return ""
+		}
+		fmt.Fprintf(&b, "  %s : %s\n", fieldName(f.Name()), lt)
+	}
+	b.WriteString("deriving DecidableEq, Repr\n")
+	if !t.fc.structSeen[name] {
+		t.fc.structSeen[name] = true
+		t.fc.structs = append(t.fc.structs, b.String())
+	}
+	return name
+}
+
+func structOf(ty types.Type) (*types.Named, *types.Struct) {
+	if p, ok := ty.Underlying().(*types.Pointer); ok {
+		ty = p.Elem()
+	}
+	named, _ := ty.(*types.Named)
+	st, _ := ty.Underlying().(*types.Struct)
+	return named, st
+}
+
+// zeroOf: Go's zero value of a supported type
+func (t *tr) zeroOf(n ast.Node, ty types.Type) string {
+	if _, st := structOf(ty); st != nil {
+		if _, isPtr := ty.Underlying().(*types.Pointer); isPtr {
+			t.fail(n, "zero value of a pointer")
+		}
+		name := t.leanType(n, ty)
+		var fs []string
+		for i := 0; i < st.NumFields(); i++ {
+			fs = append(fs, fieldName(st.Field(i).Name())+" := "+t.zeroOf(n, st.Field(i).Type()))
+		}
+		return "({ " + strings.Join(fs, ", ") + " } : " + name + ")"
+	}
+	return t.zero(n, t.leanType(n, ty))
 }
 
 func isIntTy(lt string) bool {
@@ -457,6 +558,88 @@ func (t *tr) structPath(e ast.Expr, sc scope) (*varInfo, string, bool) {
 	}
 }
 
+// fullPath: a field path rooted at a variable whose struct type is translated completely
+func (t *tr) fullPath(e ast.Expr, sc scope) (*varInfo, []string, bool) {
+	var names []string
+	cur := e
+	for {
+		switch x := cur.(type) {
+		case *ast.SelectorExpr:
+			if se := t.p.info.Selections[x]; se == nil || se.Kind() != types.FieldVal {
+				return nil, nil, false
+			}
+			names = append([]string{fieldName(x.Sel.Name)}, names...)
+			cur = x.X
+			continue
+		case *ast.ParenExpr:
+			cur = x.X
+			continue
+		case *ast.Ident:
+			obj := t.p.info.Uses[x]
+			if obj == nil {
+				return nil, nil, false
+			}
+			v := sc.find(obj)
+			if v == nil || !v.full || len(names) == 0 {
+				return nil, nil, false
+			}
+			return v, names, true
+		}
+		return nil, nil, false
+	}
+}
+
+// composite: T{…} of a completely translated struct type
+func (t *tr) composite(x *ast.CompositeLit, sc scope, k func(string) string) string {
+	ty := t.tv(x).Type
+	_, st := structOf(ty)
+	if st == nil {
+		t.fail(x, "composite literal of %s (only structs)", ty)
+	}
+	if _, isPtr := ty.Underlying().(*types.Pointer); isPtr {
+		t.fail(x, "composite literal of a pointer type")
+	}
+	name := t.leanType(x, ty)
+	vals := make([]string, st.NumFields())
+	exprs := make([]ast.Expr, st.NumFields())
+	for i, el := range x.Elts {
+		if kv, ok := el.(*ast.KeyValueExpr); ok {
+			id, _ := kv.Key.(*ast.Ident)
+			found := false
+			for j := 0; id != nil && j < st.NumFields(); j++ {
+				if st.Field(j).Name() == id.Name {
+					exprs[j] = kv.Value
+					found = true
+				}
+			}
+			if !found {
+				t.fail(el, "unknown field in composite literal")
+			}
+		} else {
+			if i >= st.NumFields() {
+				t.fail(el, "too many values in composite literal")
+			}
+			exprs[i] = el
+		}
+	}
+	var rec func(i int) string
+	rec = func(i int) string {
+		if i == st.NumFields() {
+			var fs []string
+			for j := 0; j < st.NumFields(); j++ {
+				fs = append(fs, fieldName(st.Field(j).Name())+" := "+vals[j])
+			}
+			return k("({ " + strings.Join(fs, ", ") + " } : " + name + ")")
+		}
+		if exprs[i] == nil {
+			vals[i] = t.zeroOf(x, st.Field(i).Type())
+			return rec(i + 1)
+		}
+		return t.expr(exprs[i], sc, func(v string) string { vals[i] = v; return rec(i + 1) })
+	}
+	return rec(0)
+}
+
 func (t *tr) isErrCtor(c *ast.CallExpr) bool {
 	sel, ok := c.Fun.(*ast.SelectorExpr)
 	if !ok {
@@ -518,7 +701,13 @@ func (t *tr) expr(e ast.Expr, sc scope, k func(term string) string) string {
 			_ = lt
 			return k(v.name + "." + strings.ReplaceAll(path, ".", "_"))
 		}
+		if v, names, ok := t.fullPath(e, sc); ok {
+			t.leanType(e, t.tv(e).Type)
+			return k(v.name + "." + strings.Join(names, "."))
+		}
 		t.fail(e, "unsupported selector %s", t.src(e))
+	case *ast.CompositeLit:
+		return t.composite(x, sc, k)
 	case *ast.UnaryExpr:
 		lt := t.leanType(e, t.tv(e).Type)
 		switch x.Op {
@@ -536,6 +725,9 @@ func (t *tr) expr(e ast.Expr, sc scope, k func(term string) string) string {
 	case *ast.CallExpr:
 		return t.call(x, sc, k)
 	case *ast.IndexExpr:
+		if t.isHeadIndex(x) {
+			return k(t.subst.head)
+		}
 		xt := t.tv(x.X).Type
 		switch u := xt.Underlying().(type) {
 		case *types.Basic:
@@ -592,12 +784,25 @@ func (t *tr) expr(e ast.Expr, sc scope, k func(term string) string) string {
 	return ""
 }
 
+// isHeadIndex: `s[i]` of the enclosing normalised index scan
+func (t *tr) isHeadIndex(x *ast.IndexExpr) bool {
+	if t.subst == nil {
+		return false
+	}
+	xs, ok1 := x.X.(*ast.Ident)
+	xi, ok2 := x.Index.(*ast.Ident)
+	return ok1 && ok2 && t.p.info.Uses[xs] == t.subst.s && t.p.info.Uses[xi] == t.subst.i
+}
+
 // isPure: does evaluating e need no bind (no indexing, slicing, division)?
 func (t *tr) isPure(e ast.Expr) bool {
 	pure := true
 	ast.Inspect(e, func(n ast.Node) bool {
 		switch x := n.(type) {
 		case *ast.IndexExpr, *ast.SliceExpr:
+			if ie, isIdx := x.(*ast.IndexExpr); isIdx && t.isHeadIndex(ie) {
+				return false
+			}
 			if tv, ok := t.p.info.Types[n.(ast.Expr)]; !ok || tv.Value == nil {
 				pure = false
 			}
@@ -617,6 +822,9 @@ func (t *tr) isPure(e ast.Expr) bool {
 				return true
 			}
 			if t.isErrCtor(x) {
+				return true
+			}
+			if t.isOpaqueCall(x) {
 				return true
 			}
 			pure = false
@@ -690,6 +898,24 @@ func (t *tr) binary(x *ast.BinaryExpr, sc scope, k func(string) string) string {
 					t.intArith = true
 				}
 				return k("(" + a + " " + x.Op.String() + " " + b + ")")
+			case token.SHR, token.SHL:
+				if !isIntTy(lt) || lt == "Int" || lt[0] != 'U' {
+					t.fail(x, "shift of %s (only unsigned fixed-width integers)", lt)
+				}
+				tvy, has := t.p.info.Types[x.Y]
+				if !has || tvy.Value == nil || tvy.Value.Kind() != constant.Int {
+					t.fail(x, "shift by a non-constant count")
+				}
+				cnt, _ := constant.Int64Val(tvy.Value)
+				width := map[string]int64{"UInt8": 8, "UInt16": 16, "UInt32": 32, "UInt64": 64}[lt]
+				if cnt < 0 || cnt >= width {
+					t.fail(x, "shift count %d is not below the width of %s", cnt, lt)
+				}
+				op := ">>>"
+				if x.Op == token.SHL {
+					op = "<<<"
+				}
+				return k(fmt.Sprintf("(%s %s (%d : %s))", a, op, cnt, lt))
 			case token.AND, token.OR, token.XOR:
 				if !isIntTy(lt) || lt == "Int" {
 					t.fail(x, "bit operation on %s (only fixed-width integers)", lt)
@@ -715,6 +941,8 @@ func (t *tr) convert(n ast.Node, a, from, to string) string {
 			return "(" + a + ".toNat : Int)" // always representable in int64
 		case "Int64", "Int32", "Int16", "Int8":
 			return a + ".toInt"
+		case "UInt64":
+			return a + ".toInt64.toInt" // two's complement reinterpretation, as in Go (uint is 64 bits wide)
 		}
 	case "Int64":
 		switch from {
@@ -733,6 +961,8 @@ func (t *tr) convert(n ast.Node, a, from, to string) string {
 			return a + ".toUInt64"
 		case "UInt8":
 			return a + ".toUInt64"
+		case "Int":
+			return "(UInt64.ofInt " + a + ")" // modulo 2^64, as in Go
 		}
 	case "UInt8":
 		switch from {
@@ -814,8 +1044,181 @@ func (t *tr) call(c *ast.CallExpr, sc scope, k func(string) string) string {
 			t.fail(c, "unsupported builtin %s", id.Name)
 		}
 	}
-	t.fail(c, "unsupported call %s (only len, append, conversions and error constructors)", t.src(c.Fun))
-	return ""
+	return t.userCall(c, sc, k)
+}
+
+// calleeOf: the module function or method a call refers to, and its receiver expression (nil for plain functions)
+func (t *tr) calleeOf(c *ast.CallExpr) (*types.Func, ast.Expr) {
+	switch f := c.Fun.(type) {
+	case *ast.Ident:
+		if fn, ok := t.p.info.Uses[f].(*types.Func); ok {
+			return fn, nil
+		}
+	case *ast.SelectorExpr:
+		if se := t.p.info.Selections[f]; se != nil {
+			if se.Kind() == types.MethodVal {
+				if fn, ok := se.Obj().(*types.Func); ok {
+					if _, isIface := se.Recv().Underlying().(*types.Interface); !isIface {
+						return fn, f.X
+					}
+				}
+			}
+			return nil, nil
+		}
+		if fn, ok := t.p.info.Uses[f.Sel].(*types.Func); ok {
+			return fn, nil
+		}
+	}
+	return nil, nil
+}
+
+func (t *tr) isOpaqueCall(c *ast.CallExpr) bool {
+	fn, _ := t.calleeOf(c)
+	return fn != nil && t.opaque[fn.Name()]
+}
+
+// userCall: a call of another function of the module. Either the callee is declared opaque in the whitelist entry (then
+// it is a function parameter of the translated definition: a pure, total function of its explicit arguments), or it is
+// translated itself, into the same file, and called through `bind`.
+func (t *tr) userCall(c *ast.CallExpr, sc scope, k func(string) string) string {
+	fn, recv := t.calleeOf(c)
+	if fn == nil || fn.Pkg() == nil || !(strings.HasPrefix(fn.Pkg().Path(), t.l.modpath+"/") || fn.Pkg().Path() == t.l.modpath) {
+		t.fail(c, "unsupported call %s (only len, append, conversions, error constructors and functions of the module)", t.src(c.Fun))
+	}
+	if c.Ellipsis != token.NoPos {
+		t.fail(c, "call with ...")
+	}
+	if t.opaque[fn.Name()] {
+		ov := t.opaqueV[fn.Name()]
+		var rec func(i int, acc []string) string
+		rec = func(i int, acc []string) string {
+			if i == len(c.Args) {
+				return k("(" + ov.name + " " + strings.Join(acc, " ") + ")")
+			}
+			return t.expr(c.Args[i], sc, func(a string) string { return rec(i+1, append(acc, paren(a))) })
+		}
+		if len(c.Args) == 0 {
+			return k(ov.name)
+		}
+		return rec(0, nil)
+	}
+	// translate the callee (once per file)
+	pi, err := t.l.load(fn.Pkg().Path())
+	if err != nil {
+		t.fail(c, "callee package does not load: %v", err)
+	}
+	var fd *ast.FuncDecl
+	for _, f := range pi.files {
+		for _, d := range f.Decls {
+			if x, ok := d.(*ast.FuncDecl); ok && x.Name.Pos() == fn.Pos() {
+				fd = x
+			}
+		}
+	}
+	if fd == nil {
+		t.fail(c, "declaration of callee %s not found", fn.Name())
+	}
+	cname := fn.Name()
+	if fd.Recv != nil && len(fd.Recv.List) == 1 {
+		ty := fd.Recv.List[0].Type
+		if st, ok := ty.(*ast.StarExpr); ok {
+			ty = st.X
+		}
+		if id, ok := ty.(*ast.Ident); ok {
+			cname = id.Name + "_" + fn.Name()
+		}
+	}
+	sg := t.fc.sigs[cname]
+	if sg == nil {
+		if t.fc.inProgress[cname] || cname == t.name {
+			t.fail(c, "recursive call of %s", cname)
+		}
+		if _, err := translate(t.l, pi, fd, cname, t.fc, nil); err != nil {
+			t.fail(c, "callee %s is outside the subset: %v", cname, err)
+		}
+		sg = t.fc.sigs[cname]
+	}
+	if sg.mutRecv {
+		t.fail(c, "callee %s writes through a pointer parameter", cname)
+	}
+	if sg.opaque {
+		t.fail(c, "callee %s has opaque callees of its own", cname)
+	}
+	// argument expressions in the callee's parameter order: receiver first
+	var argExprs []ast.Expr
+	if recv != nil {
+		argExprs = append(argExprs, recv)
+	}
+	argExprs = append(argExprs, c.Args...)
+	// the callee's Go parameters (receiver first), to line up with sg.params (which omits unused struct parameters)
+	var goParams []types.Object
+	if fd.Recv != nil {
+		for _, f := range fd.Recv.List {
+			for _, id := range f.Names {
+				goParams = append(goParams, pi.info.Defs[id])
+			}
+			if len(f.Names) == 0 {
+				goParams = append(goParams, nil)
+			}
+		}
+	}
+	for _, f := range fd.Type.Params.List {
+		for _, id := range f.Names {
+			goParams = append(goParams, pi.info.Defs[id])
+		}
+		if len(f.Names) == 0 {
+			goParams = append(goParams, nil)
+		}
+	}
+	if len(goParams) != len(argExprs) {
+		t.fail(c, "call of %s: %d arguments for %d parameters", cname, len(argExprs), len(goParams))
+	}
+	var rec func(i int, acc []string) string
+	rec = func(i int, acc []string) string {
+		if i == len(argExprs) {
+			v := t.tmp()
+			t.monadic++
+			return "bind (" + cname + strings.Join(acc, "") + ") fun " + v + " =>\n" + k(v)
+		}
+		var pv *varInfo
+		for _, q := range sg.params {
+			if goParams[i] != nil && q.obj == goParams[i] {
+				pv = q
+			}
+		}
+		if pv == nil {
+			// the callee does not use this parameter: the argument is still evaluated (it could panic)
+			if id, ok := argExprs[i].(*ast.Ident); ok {
+				if av := sc.find(t.p.info.Uses[id]); av != nil && (av.strct != nil || av.full) {
+					return rec(i+1, acc)
+				}
+			}
+			return t.expr(argExprs[i], sc, func(string) string { return rec(i+1, acc) })
+		}
+		if pv.strct != nil {
+			// projected struct parameter: the caller's variable must provide the same field paths
+			id, ok := argExprs[i].(*ast.Ident)
+			var av *varInfo
+			if ok {
+				av = sc.find(t.p.info.Uses[id])
+			}
+			if av == nil || av.strct == nil {
+				t.fail(argExprs[i], "argument for the struct parameter of %s must be a struct parameter of the caller", cname)
+			}
+			var fs []string
+			for _, pth := range pv.strct.paths {
+				if _, has := av.strct.types[pth]; !has {
+					av.strct.paths = append(av.strct.paths, pth)
+					av.strct.types[pth] = pv.strct.types[pth]
+				}
+				f := strings.ReplaceAll(pth, ".", "_")
+				fs = append(fs, f+" := "+av.name+"."+f)
+			}
+			return rec(i+1, append(acc, " ({ "+strings.Join(fs, ", ")+" } : "+pv.strct.leanName+")"))
+		}
+		return t.expr(argExprs[i], sc, func(a string) string { return rec(i+1, append(acc, " "+paren(a))) })
+	}
+	return rec(0, nil)
 }
 
 // ---------------------------------------------------------------------------------------------------------------------
@@ -828,6 +1231,8 @@ func (t *tr) fallsThrough(stmts []ast.Stmt) bool {
 	switch s := stmts[len(stmts)-1].(type) {
 	case *ast.ReturnStmt, *ast.BranchStmt:
 		return false
+	case *ast.ExprStmt:
+		return !isPanicCall(t, s)
 	case *ast.BlockStmt:
 		return t.fallsThrough(s.List)
 	case *ast.IfStmt:
@@ -844,6 +1249,19 @@ func (t *tr) fallsThrough(stmts []ast.Stmt) bool {
 		return t.fallsThrough(s.Body.List) || t.fallsThrough(els)
 	}
 	return true
+}
+
+func isPanicCall(t *tr, s *ast.ExprStmt) bool {
+	c, ok := s.X.(*ast.CallExpr)
+	if !ok {
+		return false
+	}
+	id, ok := c.Fun.(*ast.Ident)
+	if !ok || id.Name != "panic" {
+		return false
+	}
+	_, isB := t.p.info.Uses[id].(*types.Builtin)
+	return isB
 }
 
 // hasCtl: does the statement list contain return/break/continue or a loop?
@@ -910,6 +1328,9 @@ func (t *tr) declare(id *ast.Ident, ty types.Type, sc scope) (*varInfo, scope) {
 		t.fail(id, "internal: %s is not a definition", id.Name)
 	}
 	v := &varInfo{obj: obj, name: t.freshName(id.Name), ty: t.leanType(id, ty)}
+	if _, st := structOf(ty); st != nil {
+		v.full = true
+	}
 	t.vars[obj] = v
 	return v, sc.with(v)
 }
@@ -953,6 +1374,22 @@ func (t *tr) assignTo(lhs ast.Expr, val string, sc scope, define bool, k func(sc
 			}
 			return "let " + v.name + " := " + upd + "\n" + body
 		}
+	}
+	if v, names, ok := t.fullPath(lhs, sc); ok {
+		// nested update: { v with a := { v.a with b := val } }
+		upd := val
+		for i := len(names) - 1; i >= 0; i-- {
+			prefix := v.name
+			if i > 0 {
+				prefix += "." + strings.Join(names[:i], ".")
+			}
+			upd = "{ " + prefix + " with " + names[i] + " := " + upd + " }"
+		}
+		body := k(sc)
+		if body == v.name {
+			return upd
+		}
+		return "let " + v.name + " := " + upd + "\n" + body
 	}
 	t.fail(lhs, "unsupported assignment target %s (element and pointer assignment are not supported)", t.src(lhs))
 	return ""
@@ -998,7 +1435,7 @@ func (t *tr) stmt(s ast.Stmt, sc scope, c ctl, k func(sc scope) string) string {
 				}
 				obj := t.p.info.Defs[vs.Names[i]]
 				if len(vs.Values) == 0 {
-					return t.assignTo(vs.Names[i], t.zero(vs.Names[i], t.leanType(vs.Names[i], obj.Type())), sc, true, func(sc scope) string { return rec2(i+1, sc) })
+					return t.assignTo(vs.Names[i], t.zeroOf(vs.Names[i], obj.Type()), sc, true, func(sc scope) string { return rec2(i+1, sc) })
 				}
 				return t.expr(vs.Values[i], sc, func(v string) string {
 					return t.assignTo(vs.Names[i], v, sc, true, func(sc scope) string { return rec2(i+1, sc) })
@@ -1073,6 +1510,11 @@ func (t *tr) stmt(s ast.Stmt, sc scope, c ctl, k func(sc scope) string) string {
 			})
 		}
 		return rec(0, nil)
+	case *ast.ExprStmt:
+		if isPanicCall(t, x) {
+			return ".panic"
+		}
+		t.fail(s, "expression statement (a call for its effect)")
 	case *ast.ReturnStmt:
 		return t.ret(x, sc)
 	case *ast.BranchStmt:
@@ -1188,7 +1630,17 @@ func (t *tr) ifStmt(x *ast.IfStmt, sc scope, c ctl, k func(sc scope) string) str
 		// both ways reach the rest of the function: a join over the variables either branch assigns. Only for
 		// branches without control flow (otherwise the rest would have to be duplicated: refused).
 		if hasCtl(x.Body) || (x.Else != nil && hasCtl(x.Else)) {
-			t.fail(x, "if statement whose branches both fall through and contain return/break/continue/loops")
+			// no join is possible (a branch can also leave through return/break/continue): the rest of the function is
+			// emitted in both branches. Refused when that rest is large (nested duplication would blow up).
+			rest := k(sc)
+			if len(rest) > 1500 {
+				t.fail(x, "if statement whose branches both fall through and contain return/break/continue/loops, followed by a long continuation")
+			}
+			return t.expr(x.Cond, sc, func(cv string) string {
+				th := t.stmts(x.Body.List, sc, c, func(scope) string { return k(sc) })
+				el := t.stmts(els, sc, c, func(scope) string { return k(sc) })
+				return "if " + cv + " then\n" + indent(th) + "\nelse\n" + indent(el)
+			})
 		}
 		var nodes []ast.Node
 		nodes = append(nodes, x.Body)
@@ -1290,6 +1742,11 @@ func (t *tr) forStmt(x *ast.ForStmt, sc scope, c ctl, k func(sc scope) string) s
 	if x.Cond == nil {
 		t.fail(x, "for loop without a guard (no fuel bound)")
 	}
+	if iId, sId, elem, ok := t.indexScan(x, sc); ok {
+		sub := &idxSubst{s: t.p.info.Uses[sId], i: t.p.info.Defs[iId]}
+		t.notes = append(t.notes, fmt.Sprintf("index scan `for %s := 0; %s < len(%s); %s++` normalised to the range form", iId.Name, iId.Name, sId.Name, iId.Name))
+		return t.listLoop(x, sId, elem, iId, nil, x.Body, sub, sc, c, k)
+	}
 	return t.stmt(x.Init, sc, c, func(sc1 scope) string {
 		t.nloop++
 		n := t.nloop
@@ -1341,7 +1798,139 @@ func (t *tr) rangeStmt(x *ast.RangeStmt, sc scope, c ctl, k func(sc scope) strin
 	if !ok {
 		t.fail(x, "range over %s (only slices; a string ranges over runes)", xt)
 	}
-	elemTy := t.leanType(x.X, sl.Elem())
+	var keyId, valId *ast.Ident
+	if id, ok := x.Key.(*ast.Ident); ok && id.Name != "_" {
+		keyId = id
+	}
+	if id, ok := x.Value.(*ast.Ident); ok && id.Name != "_" {
+		valId = id
+	}
+	return t.listLoop(x, x.X, sl.Elem(), keyId, valId, x.Body, nil, sc, c, k)
+}
+
+// idxSubst: inside the body of a normalised index loop `for i := 0; i < len(s); i++`, `s[i]` is the head of the remaining list
+type idxSubst struct {
+	s, i types.Object
+	head string
+}
+
+// indexScan recognises `for i := 0; i < len(s); i++ { body }` where s is a variable the body does not assign, i is declared by
+// the loop and not assigned in the body: the same scan as `for i, v := range s` (with v = s[i]), so both spellings get the
+// same Lean definition (structural recursion over s, no fuel, no bounds check on s[i]).
+func (t *tr) indexScan(x *ast.ForStmt, sc scope) (iId *ast.Ident, sId *ast.Ident, elem types.Type, ok bool) {
+	as, isAs := x.Init.(*ast.AssignStmt)
+	if !isAs || as.Tok != token.DEFINE || len(as.Lhs) != 1 || len(as.Rhs) != 1 {
+		return
+	}
+	iId, _ = as.Lhs[0].(*ast.Ident)
+	if iId == nil || iId.Name == "_" {
+		return
+	}
+	iObj := t.p.info.Defs[iId]
+	if iObj == nil || t.leanTypeOK(iObj.Type()) != "Int" {
+		return
+	}
+	if tv, has := t.p.info.Types[as.Rhs[0]]; !has || tv.Value == nil || tv.Value.Kind() != constant.Int || tv.Value.ExactString() != "0" {
+		return
+	}
+	cond, isB := x.Cond.(*ast.BinaryExpr)
+	if !isB || cond.Op != token.LSS {
+		return
+	}
+	ci, _ := cond.X.(*ast.Ident)
+	call, _ := cond.Y.(*ast.CallExpr)
+	if ci == nil || call == nil || t.p.info.Uses[ci] != iObj || len(call.Args) != 1 {
+		return
+	}
+	if fn, isId := call.Fun.(*ast.Ident); !isId || fn.Name != "len" {
+		return
+	} else if _, isBuiltin := t.p.info.Uses[fn].(*types.Builtin); !isBuiltin {
+		return
+	}
+	sId, _ = call.Args[0].(*ast.Ident)
+	if sId == nil {
+		return
+	}
+	sObj := t.p.info.Uses[sId]
+	sv := sc.find(sObj)
+	if sv == nil || sv.strct != nil {
+		return
+	}
+	switch u := sObj.Type().Underlying().(type) {
+	case *types.Slice:
+		elem = u.Elem()
+	case *types.Basic:
+		if u.Kind() != types.String {
+			return
+		}
+		elem = types.Typ[types.Uint8]
+	default:
+		return
+	}
+	inc, isInc := x.Post.(*ast.IncDecStmt)
+	if !isInc || inc.Tok != token.INC {
+		return
+	}
+	if pi, _ := inc.X.(*ast.Ident); pi == nil || t.p.info.Uses[pi] != iObj {
+		return
+	}
+	// the body assigns neither i nor s
+	bad := false
+	mark := func(e ast.Expr) {
+		for {
+			switch y := e.(type) {
+			case *ast.ParenExpr:
+				e = y.X
+				continue
+			case *ast.SelectorExpr:
+				e = y.X
+				continue
+			case *ast.IndexExpr:
+				e = y.X
+				continue
+			case *ast.Ident:
+				if o := t.p.info.Uses[y]; o == iObj || o == sObj {
+					bad = true
+				}
+			}
+			return
+		}
+	}
+	ast.Inspect(x.Body, func(n ast.Node) bool {
+		switch y := n.(type) {
+		case *ast.AssignStmt:
+			for _, l := range y.Lhs {
+				mark(l)
+			}
+		case *ast.IncDecStmt:
+			mark(y.X)
+		}
+		return true
+	})
+	if bad {
+		return
+	}
+	return iId, sId, elem, true
+}
+
+func (t *tr) leanTypeOK(ty types.Type) (lt string) {
+	defer func() {
+		if r := recover(); r != nil {
+			if _, isTr := r.(trErr); isTr {
+				lt = ""
+				return
+			}
+			panic(r)
+		}
+	}()
+	return t.leanType(nil, ty)
+}
+
+// listLoop: structural recursion over a list. keyId/valId are the loop's own variables (may be nil); with subst != nil the
+// loop came from an index scan and `s[i]` in the body denotes the head.
+func (t *tr) listLoop(x ast.Node, listExpr ast.Expr, elem types.Type, keyId, valId *ast.Ident, bodyB *ast.BlockStmt, subst *idxSubst,
+	sc scope, c ctl, k func(sc scope) string) string {
+	elemTy := t.leanType(listExpr, elem)
 	t.nloop++
 	n := t.nloop
 	afterName := fmt.Sprintf("%s_after%d", t.name, n)
@@ -1353,14 +1942,14 @@ func (t *tr) rangeStmt(x *ast.RangeStmt, sc scope, c ctl, k func(sc scope) strin
 	// key and value are fresh per iteration
 	sc1 := sc
 	var keyV, valV *varInfo
-	if id, ok := x.Key.(*ast.Ident); ok && id.Name != "_" {
-		keyV, sc1 = t.declare(id, types.Typ[types.Int], sc1)
+	if keyId != nil {
+		keyV, sc1 = t.declare(keyId, types.Typ[types.Int], sc1)
 	}
-	if id, ok := x.Value.(*ast.Ident); ok && id.Name != "_" {
-		valV, sc1 = t.declare(id, sl.Elem(), sc1)
+	if valId != nil {
+		valV, sc1 = t.declare(valId, elem, sc1)
 	}
-	carried := t.assigned(sc, x.Body)
-	for _, v := range t.assigned(sc1, x.Body) {
+	carried := t.assigned(sc, bodyB)
+	for _, v := range t.assigned(sc1, bodyB) {
 		if v == keyV || v == valV {
 			t.fail(x, "range loop body assigns to its key or value variable")
 		}
@@ -1368,16 +1957,26 @@ func (t *tr) rangeStmt(x *ast.RangeStmt, sc scope, c ctl, k func(sc scope) strin
 			t.fail(x, "loop assigns to a field of struct %s", v.name)
 		}
 	}
-	idx := t.freshName("i")
+	idx := ""
 	if keyV != nil {
 		idx = keyV.name
+	} else {
+		idx = t.freshName("i")
 	}
-	head := t.freshName("v")
+	head := ""
 	if valV != nil {
 		head = valV.name
+	} else {
+		head = t.freshName("v")
 	}
 	next := func(scope) string { return loopMark + " rem (" + idx + " + 1)" + args(carried) }
-	body := t.block(x.Body, sc1, ctl{brk: callAfter, cont: next}, next)
+	saved := t.subst
+	if subst != nil {
+		subst.head = head
+		t.subst = subst
+	}
+	body := t.block(bodyB, sc1, ctl{brk: callAfter, cont: next}, next)
+	t.subst = saved
 	isCarried := map[string]bool{idx: true, head: true}
 	for _, v := range carried {
 		isCarried[v.name] = true
@@ -1391,8 +1990,8 @@ func (t *tr) rangeStmt(x *ast.RangeStmt, sc scope, c ctl, k func(sc scope) strin
 	body = strings.ReplaceAll(body, loopMark, loopName+args(ro))
 	t.defs = append(t.defs, fmt.Sprintf("def %s%s (rem : List %s) (%s : Int)%s : Res %s :=\n  match rem with\n  | [] => %s\n  | %s :: rem =>\n%s",
 		loopName, binders(ro), paren(elemTy), idx, binders(carried), t.resTy, callAfter(sc), head, indent(indent(body))))
-	t.notes = append(t.notes, fmt.Sprintf("%s: structural recursion over `%s`", loopName, t.src(x.X)))
-	return t.expr(x.X, sc, func(xs string) string {
+	t.notes = append(t.notes, fmt.Sprintf("%s: structural recursion over `%s`", loopName, t.src(listExpr)))
+	return t.expr(listExpr, sc, func(xs string) string {
 		return loopName + args(ro) + " " + paren(xs) + " (0 : Int)" + args(carried)
 	})
 }
@@ -1436,6 +2035,10 @@ func (t *tr) collectPaths(v *varInfo, obj types.Object) {
 			}
 			return true
 		}
+		// `b.method(...)` on the struct parameter itself: a call (userCall), not a field path
+		if se := t.p.info.Selections[sel]; se != nil && se.Kind() == types.MethodVal && len(names) == 1 {
+			return false
+		}
 		// all selections must be field selections
 		for e := ast.Expr(sel); ; {
 			s, ok := e.(*ast.SelectorExpr)
@@ -1477,7 +2080,12 @@ func (t *tr) param(id *ast.Ident, ty types.Type, sc scope) scope {
 		ptr = true
 	}
 	if _, ok := base.Underlying().(*types.Struct); ok {
-		v := &varInfo{obj: obj, name: t.freshName(id.Name)}
+		if name := t.fullStruct(base); name != "" {
+			v := &varInfo{obj: obj, name: t.freshName(id.Name), ty: name, full: true, ptr: ptr}
+			t.vars[obj] = v
+			return sc.with(v)
+		}
+		v := &varInfo{obj: obj, name: t.freshName(id.Name), ptr: ptr}
 		v.strct = &structProj{leanName: t.name + "_" + id.Name, types: map[string]string{}, pointer: ptr}
 		v.ty = v.strct.leanName
 		t.collectPaths(v, obj)
@@ -1492,8 +2100,17 @@ func (t *tr) param(id *ast.Ident, ty types.Type, sc scope) scope {
 	return sc.with(v)
 }
 
-func translate(l *loader, p *pkgInfo, fn *ast.FuncDecl, leanName string) (out string, err error) {
-	t := &tr{l: l, p: p, fn: fn, name: leanName, vars: map[types.Object]*varInfo{}, used: map[string]bool{}}
+func translate(l *loader, p *pkgInfo, fn *ast.FuncDecl, leanName string, fc *fileCtx, opaque []string) (out string, err error) {
+	t := &tr{l: l, p: p, fn: fn, name: leanName, vars: map[types.Object]*varInfo{}, used: map[string]bool{}, fc: fc,
+		opaque: map[string]bool{}, opaqueV: map[string]*varInfo{}}
+	for _, o := range opaque {
+		t.opaque[o] = true
+	}
+	if fc.funcSeen[leanName] {
+		return "", nil
+	}
+	fc.inProgress[leanName] = true
+	defer delete(fc.inProgress, leanName)
 	defer func() {
 		if r := recover(); r != nil {
 			if te, ok := r.(trErr); ok {
@@ -1513,7 +2130,7 @@ func translate(l *loader, p *pkgInfo, fn *ast.FuncDecl, leanName string) (out st
 	ast.Inspect(fn.Body, func(n ast.Node) bool {
 		switch n.(type) {
 		case *ast.GoStmt, *ast.DeferStmt, *ast.SendStmt, *ast.SelectStmt, *ast.FuncLit, *ast.LabeledStmt, *ast.TypeSwitchStmt, *ast.SwitchStmt,
-			*ast.TypeAssertExpr, *ast.CompositeLit, *ast.StarExpr, *ast.KeyValueExpr, *ast.ChanType, *ast.MapType:
+			*ast.TypeAssertExpr, *ast.StarExpr, *ast.ChanType, *ast.MapType:
 			t.fail(n, "unsupported construct %T", n)
 		}
 		return true
@@ -1534,6 +2151,34 @@ func translate(l *loader, p *pkgInfo, fn *ast.FuncDecl, leanName string) (out st
 			sc = t.param(id, t.p.info.Defs[id].Type(), sc)
 		}
 	}
+	// opaque callees become function parameters (pure, total functions of their explicit arguments)
+	var opaqueVars scope
+	ast.Inspect(fn.Body, func(n ast.Node) bool {
+		c, ok := n.(*ast.CallExpr)
+		if !ok {
+			return true
+		}
+		callee, _ := t.calleeOf(c)
+		if callee == nil || !t.opaque[callee.Name()] || t.opaqueV[callee.Name()] != nil {
+			return true
+		}
+		sgn := callee.Type().(*types.Signature)
+		if sgn.Results().Len() != 1 || sgn.Variadic() {
+			t.fail(c, "opaque callee %s must have exactly one result", callee.Name())
+		}
+		var parts []string
+		for i := 0; i < sgn.Params().Len(); i++ {
+			parts = append(parts, paren(t.leanType(c, sgn.Params().At(i).Type())))
+		}
+		parts = append(parts, paren(t.leanType(c, sgn.Results().At(0).Type())))
+		ov := &varInfo{obj: callee, name: t.freshName(callee.Name()), ty: strings.Join(parts, " → ")}
+		t.opaqueV[callee.Name()] = ov
+		opaqueVars = append(opaqueVars, ov)
+		return true
+	})
+	for _, ov := range opaqueVars {
+		sc = sc.with(ov)
+	}
 	params := sc
 	// which struct parameters does the body assign to?
 	for _, v := range t.assigned(sc, fn.Body) {
@@ -1541,6 +2186,8 @@ func translate(l *loader, p *pkgInfo, fn *ast.FuncDecl, leanName string) (out st
 			if !v.strct.pointer {
 				t.fail(fn, "assignment to a field of the by-value struct parameter %s", v.name)
 			}
+			t.mutRecv = append(t.mutRecv, v)
+		} else if v.full && v.ptr {
 			t.mutRecv = append(t.mutRecv, v)
 		}
 	}
@@ -1561,7 +2208,7 @@ func translate(l *loader, p *pkgInfo, fn *ast.FuncDecl, leanName string) (out st
 				v, sc2 := t.declare(id, t.p.info.Defs[id].Type(), sc)
 				sc = sc2
 				t.results = append(t.results, v)
-				prelude += "let " + v.name + " := " + t.zero(id, lt) + "\n"
+				prelude += "let " + v.name + " := " + t.zeroOf(id, t.p.info.Defs[id].Type()) + "\n"
 			}
 		}
 	}
@@ -1625,6 +2272,12 @@ func translate(l *loader, p *pkgInfo, fn *ast.FuncDecl, leanName string) (out st
 	for _, m := range t.mutRecv {
 		hdr += "-- note: `" + m.name + "` is written through a pointer: its final value is the last component of the result\n"
 	}
+	for name := range t.opaqueV {
+		hdr += "-- note: `" + name + "` is an opaque callee: a parameter of the definition (assumed to be a pure, total function of its explicit arguments)\n"
+	}
+	fc.funcSeen[leanName] = true
+	fc.funcs = append(fc.funcs, hdr+b.String())
+	fc.sigs[leanName] = &sig{params: ps, resTy: t.resTy, mutRecv: len(t.mutRecv) > 0, opaque: len(opaqueVars) > 0}
 	return hdr + b.String(), nil
 }
 
@@ -1677,7 +2330,66 @@ func findFunc(pi *pkgInfo, recv, name string) *ast.FuncDecl {
 	return nil
 }
 
+// survey: try every function of every package under the module and report which ones are inside the subset
+func survey(repo, mod string) {
+	l := &loader{fset: token.NewFileSet(), repo: repo, modpath: mod, pkgs: map[string]*pkgInfo{}, fakes: map[string]*types.Package{}, loading: map[string]bool{}}
+	var dirs []string
+	filepath.Walk(repo, func(p string, fi os.FileInfo, err error) error {
+		if err != nil || !fi.IsDir() {
+			return nil
+		}
+		if strings.HasPrefix(fi.Name(), ".") || fi.Name() == "vendor" || fi.Name() == "testdata" {
+			return filepath.SkipDir
+		}
+		dirs = append(dirs, p)
+		return nil
+	})
+	for _, d := range dirs {
+		rel, _ := filepath.Rel(repo, d)
+		path := mod
+		if rel != "." {
+			path = mod + "/" + filepath.ToSlash(rel)
+		}
+		pi, err := l.load(path)
+		if err != nil {
+			continue
+		}
+		for _, f := range pi.files {
+			for _, dd := range f.Decls {
+				fd, ok := dd.(*ast.FuncDecl)
+				if !ok || fd.Body == nil {
+					continue
+				}
+				name := fd.Name.Name
+				spec := rel + "." + name
+				if fd.Recv != nil && len(fd.Recv.List) == 1 {
+					ty := fd.Recv.List[0].Type
+					star := ""
+					if st, ok := ty.(*ast.StarExpr); ok {
+						ty = st.X
+						star = "*"
+					}
+					if id, ok := ty.(*ast.Ident); ok {
+						spec = rel + ".(" + star + id.Name + ")." + name
+						name = id.Name + "_" + name
+					}
+				}
+				_, err := translate(l, pi, fd, name, newFileCtx(), nil)
+				if err != nil {
+					fmt.Printf("NO  %s: %s\n", spec, err)
+				} else {
+					fmt.Printf("OK  %s\n", spec)
+				}
+			}
+		}
+	}
+}
+
 func main() {
+	if len(os.Args) == 4 && os.Args[1] == "-survey" {
+		survey(os.Args[2], os.Args[3])
+		return
+	}
 	if len(os.Args) != 4 {
 		fmt.Fprintln(os.Stderr, "usage: go2lean <repo-dir> <out-dir> <whitelist.json>")
 		os.Exit(2)
@@ -1694,17 +2406,17 @@ func main() {
 		os.Exit(2)
 	}
 	l := &loader{fset: token.NewFileSet(), repo: repo, modpath: wl.Module, pkgs: map[string]*pkgInfo{}, fakes: map[string]*types.Package{}, loading: map[string]bool{}}
-	files := map[string][]string{}
+	files := map[string]*fileCtx{}
 	var order []string
 	for _, spec := range wl.Functions {
 		if _, ok := files[spec.File]; !ok {
-			files[spec.File] = nil
+			files[spec.File] = newFileCtx()
 			order = append(order, spec.File)
 		}
 		pkg, recv, fn, err := parseSpec(spec.Go, wl.Module)
 		problem := func(why string) {
 			fmt.Printf("TRANSLATE-PROBLEM: %s: %s\n", spec.Go, why)
-			files[spec.File] = append(files[spec.File], fmt.Sprintf("-- NOT TRANSLATED: %s: %s\n", spec.Go, strings.ReplaceAll(why, "\n", " ")))
+			files[spec.File].funcs = append(files[spec.File].funcs, fmt.Sprintf("-- NOT TRANSLATED: %s: %s\n", spec.Go, strings.ReplaceAll(why, "\n", " ")))
 		}
 		if err != nil {
 			problem(err.Error())
@@ -1724,12 +2436,10 @@ func main() {
 		if recv != "" {
 			name = recv + "_" + fn
 		}
-		txt, err := translate(l, pi, fd, name)
-		if err != nil {
+		if _, err := translate(l, pi, fd, name, files[spec.File], spec.Opaque); err != nil {
 			problem(err.Error())
 			continue
 		}
-		files[spec.File] = append(files[spec.File], txt)
 	}
 	sort.Strings(order)
 	os.MkdirAll(outDir, 0o755)
@@ -1739,7 +2449,10 @@ func main() {
 		b.WriteString("/-! GENERATED by tools/go2lean from the Go source of /repo on every run — do not edit, not committed. -/\n")
 		b.WriteString("set_option linter.unusedVariables false\n")
 		fmt.Fprintf(&b, "namespace Logrange.Translated.%s\nopen Go Go.Sem\n\n", f)
-		b.WriteString(strings.Join(files[f], "\n"))
+		for _, st := range files[f].structs {
+			b.WriteString(st + "\n")
+		}
+		b.WriteString(strings.Join(files[f].funcs, "\n"))
 		fmt.Fprintf(&b, "\nend Logrange.Translated.%s\n", f)
 		path := filepath.Join(outDir, f+".lean")
 		old, err := os.ReadFile(path)
